@@ -111,7 +111,9 @@ func c17netns(w c17world) error {
 		if r.src != "" {
 			rt.Src = net.ParseIP(r.src).To4()
 		}
-		if r.dst != "" {
+		if strings.HasPrefix(r.dst, "table:") {
+			fmt.Sscanf(r.dst, "table:%d", &rt.Table)
+		} else if r.dst != "" {
 			_, n, _ := net.ParseCIDR(r.dst)
 			rt.Dst = n
 		}
@@ -272,6 +274,10 @@ func c17routes(ifs []c17if) [][]c17route {
 		{{"eth0", 100, "", ""}, {"tun0", 0, "", "0.0.0.0/1"}, {"tun0", 0, "", "128.0.0.0/1"}},
 		{{"eth0", 100, "", ""}, {"eth1", 50, "", "0.0.0.0/8"}},
 		{{"tun0", 0, "", "0.0.0.0/1"}, {"tun0", 0, "", "128.0.0.0/1"}}, // and no default route at all
+		// a default route that lives in a policy-routing table only (source-based routing), with a better metric:
+		// route dumps of the main table do not show it
+		{{"eth0", 100, "", ""}, {"eth1", 10, "", "table:100"}},
+		{{"eth1", 10, "", "table:100"}},
 	}
 	var out [][]c17route
 	for _, rs := range all {
@@ -317,7 +323,10 @@ func (w c17world) apply(zw *zzvenv.World) {
 				if i.mac == "" {
 					rt.Gw = nil
 				}
-				if r.dst != "" {
+				if strings.HasPrefix(r.dst, "table:") {
+					// a default route of a policy-routing table: not in the main table, hence not a default route of the host
+					fmt.Sscanf(r.dst, "table:%d", &rt.Table)
+				} else if r.dst != "" {
 					_, n, _ := net.ParseCIDR(r.dst)
 					rt.Dst = n
 				}
